@@ -159,7 +159,9 @@ func RunC10(run *vk.Run) {
 	}
 	var mu sync.Mutex
 	var traced []faultCase
-	for _, combo := range Combos {
+	// the two nonprod key managers and the Cloud KMS key manager (keys/gcpkms over the repository's KMS fake)
+	combosC10 := append(append([]Combo{}, Combos...), Combo{"gcpkms", "memca"}, Combo{"gcpkms", "gcsca"})
+	for _, combo := range combosC10 {
 		for nrot := 0; nrot <= maxRot; nrot++ {
 			if run.IsQuick() && nrot == 1 && combo.CA == "localca" {
 				continue
@@ -334,7 +336,7 @@ func RunC10(run *vk.Run) {
 	var traces [][]string
 	var tidx []int
 	for i, fc := range traced {
-		if fc.combo.CA == "gcsca" {
+		if fc.combo.CA == "gcsca" && fc.combo.KM != "gcpkms" { // KeyAuthority.tla models the nonprod managers' key naming
 			traces = append(traces, traceOf(fixEndorse(fc.events)))
 			tidx = append(tidx, i)
 		}
@@ -358,7 +360,7 @@ func RunC10(run *vk.Run) {
 	run.Extra["traces_rejected_by_spec"] = len(rej)
 	run.Extra["real_traces_accepted_by_spec"] = len(traces) - len(rej)
 	run.Exhaustive = true
-	run.Rule = "for every combination of key manager and certificate authority and 0..N prior rotations: every call of the real call sequence of a rotation is made to fail, and (persistent key stores) the process is crashed after it; after each, fresh instances are loaded, the recorded primary must sign a document that verifies under the root, key destruction must not precede the durable record, the same holds after re-running the rotation without --overwrite (refused or not), and a fault-free --overwrite rotation must succeed; the recorded event logs are validated against Trace_KeyAuthority; distinct = (combo, prior rotations, mode, call index)"
+	run.Rule = "for every combination of key manager (in-memory, on disk, Cloud KMS over the repository's KMS fake) and certificate authority and 0..N prior rotations: every call of the real call sequence of a rotation is made to fail, and (persistent key stores) the process is crashed after it; after each, fresh instances are loaded, the recorded primary must sign a document that verifies under the root, key destruction must not precede the durable record, the same holds after re-running the rotation without --overwrite (refused or not), and a fault-free --overwrite rotation must succeed; the recorded event logs are validated against Trace_KeyAuthority; distinct = (combo, prior rotations, mode, call index)"
 }
 
 // fixEndorse gives Endorse events the primary-key argument the spec expects (the key named by the
